@@ -97,7 +97,7 @@ fn gen_spec(rng: &mut Rng, fam: usize, res: &str, id: String, invalid: bool) -> 
                 max_queue_ms: 0,
                 burst: 0,
                 duration_s: if metric == 1 { rng.range(1, 2) } else { 0 },
-                capacity: *rng.pick(&[0usize, 0, 100]),
+                capacity: *rng.pick(&[0usize, 0, 100, 4, 2]),
                 specific: if rng.chance(1, 3) { vec![("a".to_string(), rng.range(1, 5))] } else { vec![] },
             };
             if rng.chance(1, 8) {
@@ -188,7 +188,7 @@ impl Prop for C10 {
         }
     }
     fn rule_text(&self) -> &'static str {
-        "seeded scenarios per family (flow, circuit breaker, hotspot, isolation, system): a pool of valid, invalid, equal-but-differently-identified, edited-with-the-same-id and nearest-neighbour (threshold one representable value apart) rules, hotspot rules also with a registered custom control strategy, on 2-3 resources and a history of <= 12 operations over load-all / load-for-resource / append / clear / clear-for-resource; after every operation get_rules, get_rules_of_resource and the live controller/breaker lists are compared (as sets under rule equality) with a reference map, for flow and isolation additionally the enforced minimum threshold is measured behaviourally; return values asserted for duplicate-free calls; every call under catch_unwind followed by a health probe. Non-trivial = history contains a replacement and an append after which >= 2 rules are active on one resource; distinct = distinct trace hash."
+        "seeded scenarios per family (flow, circuit breaker, hotspot, isolation, system): a pool of valid, invalid, equal-but-differently-identified, edited-with-the-same-id and nearest-neighbour (threshold one representable value apart) rules, hotspot rules also with a registered custom control strategy, on 2-3 resources and a history of <= 12 operations over load-all / load-for-resource / append / clear / clear-for-resource; after every operation get_rules, get_rules_of_resource and the live controller/breaker lists are compared (as sets under rule equality) with a reference map, for flow, isolation and hotspot (concurrency and reject-type rules) additionally the enforced minimum threshold is measured behaviourally, for hotspot QPS rules also that a drained value stays drained while other values pass by; return values asserted for duplicate-free calls; every call under catch_unwind followed by a health probe. Non-trivial = history contains a replacement and an append after which >= 2 rules are active on one resource; distinct = distinct trace hash."
     }
     fn components(&self) -> Value {
         json!({"real": ["sentinel-core: the five rule managers, controller/breaker builders, EntryBuilder + slot chain for the behavioural probes"],
@@ -220,6 +220,22 @@ impl Prop for C10 {
                 } else {
                     pool.push(gen_spec(rng, fam, r, id, false));
                 }
+            } else if fam == 2 && !pool.is_empty() && rng.chance(1, 6) {
+                // the same hotspot rule with another metric type or another cache capacity (what decides whether
+                // its statistics may be handed over on reload)
+                let mut near = rng.pick(&pool).clone();
+                near.set_id(id.clone());
+                if let AnySpec::Hot(h) = &mut near {
+                    if rng.chance(1, 2) {
+                        h.capacity = if h.capacity == 2 { 4 } else { 2 };
+                    } else {
+                        h.metric = 1 - h.metric.min(1);
+                        if h.metric == 1 && h.duration_s == 0 {
+                            h.duration_s = 1;
+                        }
+                    }
+                }
+                pool.push(near);
             } else if !pool.is_empty() && rng.chance(1, 6) {
                 // an edited rule that keeps its id: same id and resource, other content
                 let old = rng.pick(&pool).clone();
@@ -592,6 +608,58 @@ fn run(sc: &Scn, w: &mut World, tr: &mut Trace, cov: &mut Cov) -> Option<Violati
                         ));
                     }
                     cov.hit("behavioural_probe");
+                }
+                // behavioural enforcement for hotspot: rules that count (concurrency) or reject (QPS reject,
+                // the registered custom strategy) on a positional parameter
+                let probeable = fam == 2
+                    && !want.is_empty()
+                    && want.iter().all(|j| match &sc.pool[*j] {
+                        AnySpec::Hot(h) => h.key.is_empty() && (h.metric == 0 || h.ctrl != 1),
+                        _ => false,
+                    });
+                if probeable {
+                    let hs: Vec<&HotspotSpec> = want.iter().filter_map(|j| if let AnySpec::Hot(h) = &sc.pool[*j] { Some(h) } else { None }).collect();
+                    // (1) a value never seen before: admissions at one instant, entries kept open
+                    let v = format!("pv{}_{}", i, rname.len() + rname.bytes().last().unwrap_or(0) as usize);
+                    let cap: u64 = hs.iter().map(|h| if h.metric == 0 { h.threshold } else { h.threshold + h.burst }).min().unwrap_or(8).min(8);
+                    let mut admitted = 0u64;
+                    for _ in 0..8 {
+                        let o = w.enter(rname, 1, false, Some(vec![v.clone(), v.clone()]), None);
+                        if !o.admitted {
+                            break;
+                        }
+                        admitted += 1;
+                    }
+                    if admitted != cap {
+                        w.drain();
+                        return Some(Violation::new(
+                            format!("C10/{}/{}/decisions-{}", f, opname, if admitted > cap { "rule-not-enforced" } else { "stricter-than-rules" }),
+                            i,
+                            format!("after {:?} on {}: {} admissions for a new parameter value before the first block, active rules allow {} (reference {:?})", op, rname, admitted, cap, want),
+                        ));
+                    }
+                    // (2) no cross-talk inside the capacity: the drained value stays drained while two other values pass by
+                    let roomy = hs.iter().all(|h| h.capacity == 0 || h.capacity >= 4);
+                    let all_qps = hs.iter().all(|h| h.metric == 1);
+                    if roomy && all_qps && cap < 8 {
+                        for other in ["o1", "o2"] {
+                            let ov = format!("{}{}", v, other);
+                            let _ = w.enter(rname, 1, false, Some(vec![ov.clone(), ov]), None);
+                        }
+                        let again = w.enter(rname, 1, false, Some(vec![v.clone(), v.clone()]), None);
+                        if again.admitted {
+                            w.drain();
+                            return Some(Violation::new(
+                                format!("C10/{}/{}/decisions-drained-value-admitted-again", f, opname),
+                                i,
+                                format!("after {:?} on {}: value {} had used up its {} tokens, two other values were requested once, then {} was admitted again at the same instant (capacity of every active rule >= 4; reference {:?})", op, rname, v, cap, v, want),
+                            ));
+                        }
+                        cov.hit("hotspot_cross_talk_probe");
+                    }
+                    w.drain();
+                    w.advance(11 * SEC);
+                    cov.hit("hotspot_behavioural_probe");
                 }
             }
         }
